@@ -32,18 +32,33 @@ RU = "PyMatterSim.reader.reader_utils"
 FUNCS = "PyMatterSim.utils.funcs"
 
 NOT_DECIDED = [
-    "int()/round() of floating quotients (sq4: n_t = round(t / time[0]), numofq = int(...)) are exact only under A1 (floats are reals)",
-    "floating-point accuracy of the averages (A1); comparisons |D|^2 < a2 exactly at the cutoff",
+    "Dynamics.sq4 (the four-point structure factor clause: lag n_t = round(t/time[0]), mobility mask, origin average of conditional_sq) "
+    "is NOT under contract in this build: it needs a DataFrame-arithmetic model and the callee contract of conditional_sq (C13), "
+    "neither of which exists in this tree yet",
+    "the neighbour-file branch of both __init__ (open + read_neighbors once per frame / once): not symbolically executed (no file model); "
+    "it is exercised concretely by the replays of the cage cases only (validation, not proof)",
+    "int()/round() of floating quotients and the floating-point accuracy of the averages (A1: floats are reals); comparisons |D|^2 < a2 exactly at the cutoff",
     "the statement's N in chi4 when a per-frame selection changes its size from frame to frame (the contract fixes N = size of the "
     "selection in the first frame, which is the statement's N whenever the size is constant)",
+    "degenerate inputs outside the statement: a particle with an empty neighbour row (cn = 0), an origin frame with an empty selection, "
+    "a frame pair without any motion (alpha2 = 0/0) — excluded by preconditions, the real code returns NaN there",
+    "cal_type x coordinates x cage x condition: all 8 slow combinations and 2 fast ones (fast/xu/nocage/all, fast/x-only/cage/condition) per "
+    "dimension are proved; the other 6 fast combinations are not enumerated (the slow/fast branch is independent of the other three)",
 ]
 TRUSTED = [
-    "callee contract of remove_pbc = C02.pbc_spec_row (proved by C02 for every mask in {0,1}^d and every non-singular cell)",
+    "callee contract of remove_pbc at its call sites: the result row is a function of (input row, cell of the ORIGIN frame, mask) — left "
+    "uninterpreted in the relaxation units (so everything proved holds for C02.pbc_spec_row, which C02 proves for the real remove_pbc); "
+    "preconditions det != 0 and ppp in {0,1}^d are obligations at the call site",
+    "callee contract of cage_relative at its call sites = the spec cage_row that the unit cage_relative proves for the real body",
     "np.cos is an uninterpreted function (only equality of arguments is used)",
     "pandas: DataFrame(2-D array, columns=names) has column j = data[:, j]; Series.map(dict).values is the element-wise lookup",
-    "quantified preconditions (every cell non-singular, every neighbour row well formed, every selection non-empty) are "
-    "used through instances at the frame / particle index of the call site (World.pre_*)",
-    "induction principle: a lemma with proved base (M = 1) and step (M -> M+1) obligations is used at M = T",
+    "quantified preconditions (every cell non-singular, every neighbour row well formed: 1 <= cn <= width-1 and ids in range, every origin "
+    "frame has a selected particle, every particle type of the first frame is a key of the diameters map) are used through instances "
+    "at the frame / particle index of the call site (World.pre_*), or as z3 quantifiers in the small units (cage_relative, __init__)",
+    "induction principle: the two generic sum lemmas have proved base (M = 1) and step (M -> M+1) obligations on fresh symbols and an "
+    "uninterpreted summand q, and are used at M = T with q := each pair quantity (schematic instantiation)",
+    "boolean-mask selection model of pyvc.arr.Masked (a[m] op b[m] = (a op b)[m] for equal masks; reductions carry the factor [m_i])",
+    "products/quotients of unknowns treated as uninterpreted functions in the first proof attempt (sound weakening)",
 ]
 
 
@@ -469,16 +484,16 @@ class DynRelaxation(Unit):
         # the clauses below are equalities of terms in which the divisors appear on both sides
         names = {"F": "isf:mean-cos-averaged-over-all-origins", "Q": "Qt:overlap-fraction-averaged-over-all-origins", "M2": "msd:averaged-over-all-origins"}
         for cname, qn in QUANT:
-            yield names[qn], sv.implies(ink, sv.cmp("==", col[cname], avg(qn))), {"assume": [count_T, reidx[qn]], "abstract_nl": True, "solver_opts": NO_UNFOLD}
+            yield names[qn], sv.implies(ink, sv.cmp("==", col[cname], avg(qn))), {"assume": [count_T, reidx[qn]], "abstract_nl": True, "abstract_only": True, "solver_opts": NO_UNFOLD}
         nsel0 = W.nsel(0)
         # the two derived columns: the averages <Q> and <M2> inside them are the columns Qt and msd (clauses above, used as
         # assumptions here), so each needs only the all-origin average of one more pair quantity
         qt_is = sv.implies(ink, sv.cmp("==", col["Qt"], avg("Q")))
         msd_is = sv.implies(ink, sv.cmp("==", col["msd"], avg("M2")))
         yield ("X4_Qt:N(<Q^2>-<Q>^2)", sv.implies(ink, sv.cmp("==", col["X4_Qt"], sv.mul(sv.sub(avg("Q2"), sv.mul(avg("Q"), avg("Q"))), nsel0))),
-               {"assume": [count_T, reidx["Q2"], qt_is], "abstract_nl": True, "solver_opts": NO_UNFOLD})
+               {"assume": [count_T, reidx["Q2"], qt_is], "abstract_nl": True, "abstract_only": True, "solver_opts": NO_UNFOLD})
         yield ("alpha2:c_d<M4>/<M2>^2-1", sv.implies(ink, sv.cmp("==", col["alpha2"], sv.sub(sv.div(sv.mul(alpha2_prefactor(d), avg("M4")), sv.mul(avg("M2"), avg("M2"))), 1))),
-               {"assume": [count_T, reidx["M4"], msd_is], "abstract_nl": True, "solver_opts": NO_UNFOLD})
+               {"assume": [count_T, reidx["M4"], msd_is], "abstract_nl": True, "abstract_only": True, "solver_opts": NO_UNFOLD})
         stores = [e for e in out.state.events if e[0] == "store" and e[1] in inp["watch"]]
         yield "frame-inputs-not-written", len(stores) == 0
 
@@ -547,7 +562,7 @@ class LogRelaxation(Unit):
         ink = _in(0, k, sv.sub(T, 1))
         col = {name: cols[name].get((k,)) for name in cols}
         P = W.pair(0, sv.add(k, 1))
-        opts = {"abstract_nl": True, "solver_opts": NO_UNFOLD}
+        opts = {"abstract_nl": True, "abstract_only": True, "solver_opts": NO_UNFOLD}
         yield "t:time-axis", sv.implies(ink, sv.cmp("==", col["t"], W.tm.get((k,))))
         yield "isf:mean-cos-first-frame-origin", sv.implies(ink, sv.cmp("==", col["isf"], P["F"])), opts
         yield "Qt:overlap-fraction-first-frame-origin", sv.implies(ink, sv.cmp("==", col["Qt"], P["Q"])), opts
@@ -1106,6 +1121,6 @@ def _replay_relaxation(kind, case, clause, model, seed):
 UNITS = [DynRelaxation(), LogRelaxation(), DynInit(), LogInit(), Alpha2Factor(), CageRelative()]
 
 MANIFEST = {
-    "text": "todo",
-    "note": "todo",
+    "text": 'Dynamics.relaxation and LogDynamics.relaxation (real ASTs, re-read every run), symbolic frame number T >= 2 and particle number N >= 1, d in {2,3}, for coordinates xu / x-only (PBC removal through remove_pbc with the cell of the origin frame, any mask with a periodic axis), with/without cage-relative neighbour lists (list of the origin frame), with/without a per-frame boolean selection, slow (8 combinations) and fast (2 combinations) per dimension: at an arbitrary row k, t = time[k]; isf, Qt, msd are the averages over ALL origins n0 = 0..T-2-k of the mean of cos(q_i D) over selected particles and axes (q_i = qconst/diameter_i), of the fraction with |D|^2 < a2_i (> for fast) and of the mean |D|^2; X4_Qt = N_sel(<Q^2>-<Q>^2); alpha2 = c_d <M4>/<M2>^2 - 1 with c_3 = 3/5, c_2 = 1/2; the log variant returns the same pair quantities with the first frame as only origin and X4_Qt = 0. The nested (end frame, lag) loops are summarised by inductively checked scatter-add summaries; two generic lemmas proved by induction on the frame number (number of origins = T-1-k; sum over end frames = sum over origins) turn the accumulated sums into the origin averages of the statement. Also under contract: alpha2factor (3/5, 1/2, ValueError otherwise), cage_relative (row i = displacement minus the mean over its cn_i listed neighbours, symbolic N and list width), both __init__ without neighbour file (xu preferred, PBC flag iff only wrapped coordinates, ValueError for unequal frame numbers / no periodic axis, time[k] = (ts[k+1]-ts[0]) dt, diameters = map of the first frame types, a2_cuts = (a diameter)^2), and the lemma wrapped = unwrapped on the contract of remove_pbc (lattice-shifted displacement within half a cell is restored, every mask, d = 2, 3). Inputs are never written.',
+    "note": 'floats as reals (A1); remove_pbc enters through its C02 contract (uninterpreted row function + call-site preconditions), cage_relative through the contract its own unit proves; np.cos uninterpreted; pandas DataFrame/Series.map contracts assumed; quantified preconditions used by instances; NOT under contract: Dynamics.sq4 (S4 clause) and the neighbour-file branch of __init__ (only replayed concretely); 6 of the 8 fast combinations per dimension are not enumerated; N of chi4 is the selection size of the first frame',
 }
